@@ -1,1 +1,133 @@
+# c_mem.py — streams for the Memfs state-machine properties (C01, C03, C06, C09, C10, C12, C20, C13).
+import os, subprocess, itertools
+from props import Stream
+from gen import random_string
+from rvlib import hx, CheckError
+
 PROPS = {}
+
+MEM_ENV = {"HOME": "/home/u", "V": "v", "W": None}
+
+
+def envspec(env):
+    return ";".join("%s=%s" % (k, hx(v)) for k, v in sorted(env.items()) if v is not None) or "-"
+
+
+def op(name, *args):
+    out = [name]
+    for a in args:
+        if isinstance(a, int):
+            out.append(str(a))
+        elif isinstance(a, (list, tuple)):
+            out.append(",".join(hx(x) for x in a))
+        else:
+            out.append(hx(a))
+    return ":".join(out)
+
+
+QUERIES = ["exists", "is_dir", "is_file", "is_symlink", "is_symlink_dir", "is_symlink_file", "is_exec", "is_readonly",
+           "mode", "owner", "read_all", "read_lines", "readlink", "readlink_abs", "abs"]
+
+
+def alphabet(tier):
+    """the bounded universe: names {a, b} (+ a multi-byte one), depth <= 2"""
+    P = ["/a", "/b", "/a/b", "/a/a"] + (["/é"] if tier != "quick" else [])
+    muts = []
+    for p in P:
+        muts += [op("mkfile", p), op("mkdir_p", p), op("remove", p), op("remove_all", p)]
+    muts += [op("mkdir_m", "/a", 0o700), op("mkdir_m", "/b/a", 0o555)]
+    muts += [op("write_all", "/a", b"x"), op("write_all", "/a/b", "é\n".encode()), op("write_all", "/b", b""),
+             op("append_all", "/a", b"yz"), op("append_all", "/a/b", b"\xff"), op("write_lines", "/b", ["l1", "l2"]),
+             op("append_line", "/b", "t"), op("append_lines", "/a", ["u", ""])]
+    muts += [op("symlink", "/b", "/a"), op("symlink", "/a/b", "../b"), op("symlink", "/a/a", "/a"), op("symlink", "/b", "/nope"),
+             op("symlink", "/a", "b")]
+    muts += [op("move_p", "/a", "/b"), op("move_p", "/b", "/a"), op("move_p", "/a", "/a/b"), op("move_p", "/a/b", "/b"),
+             op("move_p", "/a", "/c/d"), op("move_p", "/b", "/a/a"), op("move_p", "/a", "/a")]
+    muts += [op("set_cwd", "/a"), op("set_cwd", "/"), op("set_cwd", "/a/b"), op("remove_all", "/"), op("mkfile", "b"), op("mkdir_p", "../b/./a"),
+             op("remove", ".."), op("mkfile", "/"), op("write_all", "/", b"r"), op("mkdir_p", ""), op("mkfile", "~/x"), op("mkdir_p", "$V")]
+    qs = []
+    for q in QUERIES:
+        for p in ["/a", "/b", "/a/b", "/", "b", "a/../b"]:
+            qs.append(op(q, p))
+    qs += [op("cwd"), op("root")]
+    return muts, qs
+
+
+def bfs_histories(ctx, tier, depth, maxstates):
+    muts, qs = alphabet(tier)
+    work = ctx["work"]
+    af = os.path.join(work, "alphabet.txt")
+    with open(af, "w") as f:
+        f.write("\n".join(muts + qs) + "\n")
+    out = os.path.join(work, "bfs.hist")
+    p = subprocess.run([ctx["rvm"], "--bfs", af, str(depth), str(maxstates), out, envspec(MEM_ENV)],
+                       stdout=subprocess.PIPE, stderr=subprocess.PIPE, text=True, timeout=1200)
+    if p.returncode != 0:
+        raise CheckError("model BFS failed: " + p.stderr[-2000:])
+    lines = open(out).read().split("\n")
+    if lines and lines[-1] == "":
+        lines.pop()
+    return lines, p.stderr.strip()
+
+
+def random_histories(rng, n, length, tier):
+    names = ["a", "b", "c", "é", "d.e"]
+
+    def rpath():
+        k = rng.random()
+        if k < 0.08:
+            return rng.choice(["", "/", ".", "..", "~", "$V", "//a//b/", "a/../../b", "file:///a", "/a/./b/../c"])
+        d = rng.randint(1, 3)
+        p = "/".join(rng.choice(names) for _ in range(d))
+        return ("/" if rng.random() < 0.8 else "") + p
+    hs = []
+    for _ in range(n):
+        ops = []
+        for _ in range(rng.randint(1, length)):
+            k = rng.random()
+            if k < 0.14:
+                ops.append(op("mkdir_p", rpath()))
+            elif k < 0.26:
+                ops.append(op("mkfile", rpath()))
+            elif k < 0.36:
+                ops.append(op("write_all", rpath(), rng.choice([b"", b"x", "é\nb\r\n".encode(), b"\xff\xfe", b"line1\nline2"])))
+            elif k < 0.42:
+                ops.append(op("append_all", rpath(), rng.choice([b"", b"y", b"\n"])))
+            elif k < 0.50:
+                ops.append(op("symlink", rpath(), rng.choice([rpath(), "../" + rng.choice(names), rng.choice(names)])))
+            elif k < 0.60:
+                ops.append(op("move_p", rpath(), rpath()))
+            elif k < 0.68:
+                ops.append(op("remove", rpath()))
+            elif k < 0.74:
+                ops.append(op("remove_all", rpath()))
+            elif k < 0.80:
+                ops.append(op("set_cwd", rpath()))
+            elif k < 0.84:
+                ops.append(op(rng.choice(["write_lines", "append_lines"]), rpath(), rng.choice([[], ["a"], ["a", "", "b"], ["é"]])))
+            else:
+                ops.append(op(rng.choice(QUERIES), rpath()))
+        hs.append("\t".join(["hist", "m", envspec(MEM_ENV)] + ops))
+    return hs
+
+
+def hist_canon(out):
+    return out
+
+
+def mem_streams(tier, rng, ctx, focus=None):
+    depth = 2 if tier == "quick" else 3
+    maxstates = 400 if tier == "quick" else 6000
+    hs, info = bfs_histories(ctx, tier, depth, maxstates)
+    rh = random_histories(rng, 3000 if tier == "quick" else 30000, 12, tier)
+    env = dict(MEM_ENV)
+    sts = [
+        Stream("mem-bfs", "mirror", hs, impl_env=env, exhaustive=True, judge=None,
+               nontrivial=lambda l, o: "\tE:" not in o,
+               rule="model-guided BFS (%s, depth %d): every reachable state of the bounded namespace x every call of the alphabet; "
+                    "per-call results and the complete final state (all three indexes, cwd, root) compared" % (info, depth)),
+        Stream("mem-random", "mirror", rh, impl_env=env,
+               nontrivial=lambda l, o: "\tE:" not in o,
+               rule="random histories (<= 12 calls) over 5 names incl. multi-byte, unclean / relative / special spellings"),
+    ]
+    return sts
